@@ -125,6 +125,13 @@ def property_checks(inp):
         A(("EL conserves the 5/3 height moment (%s)" % tag, abs(float((cL[ok] * hL[ok] ** (5. / 3)).sum() / (p * h ** (5. / 3)).sum() - 1)), 1e-10))
         A(("EL conserves the 5/3 wind moment (%s)" % tag, abs(float((cL[ok] * wL[ok] ** (5. / 3)).sum() / (p * w ** (5. / 3)).sum() - 1)), 1e-10))
         A(("EL heights lie within their slabs' range", 0.0 if (numpy.nan_to_num(hL, nan=h.min()) >= h.min() - 1e-9).all() and (numpy.nan_to_num(hL, nan=h.min()) <= h.max() + 1e-9).all() else 1.0, 0.0))
+        # a profile is a set of layers: listing them top-down or in any other order changes nothing for the slab method
+        # (the compressed layers come back per slab, lowest slab first, in every case)
+        for oname, perm in (("descending", numpy.arange(len(h))[::-1]), ("shuffled", numpy.random.default_rng(len(h) + L).permutation(len(h)))):
+            hq, cq, wq = pc.equivalent_layers(h[perm], p[perm], L, w=w[perm])
+            same_ = (len(hq) == len(hL) and numpy.allclose(cq, cL, rtol=1e-12, atol=0) and numpy.allclose(numpy.nan_to_num(hq), numpy.nan_to_num(hL), rtol=1e-12, atol=0)
+                     and numpy.allclose(numpy.nan_to_num(wq), numpy.nan_to_num(wL), rtol=1e-12, atol=0))
+            A(("EL of the same layers listed in %s order = EL of the ascending profile (%s)" % (oname, tag), 0.0 if same_ else 1.0, 0.0))
         # optimal grouping (needs increasing heights)
         if inp["og"]:
             numpy.random.seed(inp["np_seed"])
